@@ -474,7 +474,10 @@ fn check_tcp(e: &mut Entropy, ctx: &mut Ctx) -> Result<serde_json::Value, Failur
     }
     // reserved bits (byte 12 low nibble, byte 13 top two bits) are decoded and discarded: known
     // finding tcp_reserved_bits_not_preserved; excluded by construction unless the entropy asks
-    let keep_reserved = ctx.strict || e.chance(1, 16);
+    // (in the checksum build, where this check serves C18, the bits are always cleared: the finding belongs to C08's
+    // re-encode clause and is reported there)
+    let lift = ctx.strict || e.chance(1, 16);
+    let keep_reserved = lift && !CHECKSUM_BUILD;
     if !keep_reserved && (raw[12] & 0x0f != 0 || raw[13] & 0xc0 != 0) {
         raw[12] &= 0xf0;
         raw[13] &= 0x3f;
